@@ -129,4 +129,169 @@ theorem deref_total {p : Program} {root : Nat} {tbl : Table} (h : resolve p root
   obtain ⟨t, hden, _⟩ := hng.1
   exact ⟨t, hden, deref_den inv hden ⟨rf, hr⟩ nd hng⟩
 
+/-
+  resolve_const_binding — full statement (FALSE on the model and on the code, see the witness below):
+
+    resolve p root = .ok tbl → p[i]? = some f → tbl[i]? = some (some rf) → SlotConst f s cv →
+    ∃ bs, rf.bindsAt s = some bs ∧ bs.length = cv.idents.length ∧
+      ∀ k id b, cv.idents[k]? = some id → bs[k]? = some b →
+        ((id = "true" ∨ id = "false") ∧ b = none) ∨
+        (… ∧ ∃ x, b = some x ∧ ConstCand p i id x ∧ ∀ y, ConstCand p i id y → y = x)
+
+  It fails when a definition name contains a '.', which the grammar allows: `getEnum` falls back
+  to looking the *written* name of a typedef's type (`prefix.name`) up in the local AST after the
+  qualified lookup found no enum.  The partial theorem assumes `p.saneNames` (no global name is
+  empty, contains a '.', or is a type keyword).
+-/
+
+/-- Every identifier used as a constant value (other than `true` / `false`, which get no Extra) is
+bound to the one thing it names: its Extra is a `ConstCand` (local constant, enum.value,
+include.constant, include.enum.value, enums also through typedefs, with the include index the code
+reports) and every `ConstCand` of the identifier equals it.  Contrapositive: with no candidate or
+with two different ones, resolution fails. -/
+theorem resolve_const_binding_partial {p : Program} (hsane : p.saneNames = true)
+    {root : Nat} {tbl : Table} (h : resolve p root = .ok tbl)
+    {i : Nat} {f : File} {rf : RFile} (hf : p[i]? = some f) (hr : tbl[i]? = some (some rf))
+    {s : Slot} {cv : ConstVal} (hs : SlotConst f s cv) :
+    ∃ bs, rf.bindsAt s = some bs ∧ bs.length = cv.idents.length ∧
+      ∀ (k : Nat) id b, cv.idents[k]? = some id → bs[k]? = some b →
+        ((id = kwTrue ∨ id = kwFalse) ∧ b = none) ∨
+        (¬ (id = kwTrue ∨ id = kwFalse) ∧ ∃ x, b = some x ∧ ConstCand p i id x ∧
+          ∀ y, ConstCand p i id y → y = x) := by
+  obtain ⟨inv, _⟩ := resolve_inv h
+  obtain ⟨views, hv, hc, ha⟩ := inv.produced i f rf hf hr
+  exact resolveAST_binds hsane hf hv hc ha (inv.good i f rf hf hr) hs
+
+/-- the hypotheses are satisfiable -/
+example : sample.saneNames = true := by decide
+
+/-- Witness that the hypothesis `saneNames` cannot be dropped:
+file 0 `a.thrift`: `struct b {}`; file 1: `include "a.thrift"  enum a.b { X }  typedef a.b T
+const i32 c = T.X`. -/
+def dotted : Program :=
+  [ { filename := [97], includes := [], typedefs := [], constants := [], enums := [],
+      structs := [⟨.struct, [98], []⟩], unions := [], exceptions := [], services := [] },
+    { filename := [109], includes := [⟨[97, 46, 116, 104, 114, 105, 102, 116], 0⟩],
+      typedefs := [⟨[84], .name [97, 46, 98]⟩],
+      constants := [⟨[99], .name [105, 51, 50], .ident [84, 46, 88]⟩],
+      enums := [⟨[97, 46, 98], [⟨[88], 0⟩]⟩], structs := [], unions := [], exceptions := [], services := [] } ]
+
+/-- On `dotted` the model (like the code) resolves `T` to the *struct* `b` of the include
+(category struct, Reference (0, b)) and nevertheless binds `T.X` as a value of an enum. -/
+example : ∃ tbl rf, resolve dotted 1 = .ok tbl ∧ tbl[1]? = some (some rf) ∧
+    rf.nodesAt (.typedef [84]) = some [⟨.struct, false, some ⟨0, [98]⟩⟩] ∧
+    rf.bindsAt (.const [99]) = some [some ⟨true, -1, [88], [84]⟩] := by
+  have h : (match resolve dotted 1 with
+      | .ok tbl => (match tbl[1]? with
+          | some (some rf) =>
+            decide (rf.nodesAt (.typedef [84]) = some [⟨.struct, false, some ⟨0, [98]⟩⟩]) &&
+            decide (rf.bindsAt (.const [99]) = some [some ⟨true, -1, [88], [84]⟩])
+          | _ => false)
+      | .error _ => false) = true := by decide
+  cases hr : resolve dotted 1 with
+  | error e => rw [hr] at h; simp at h
+  | ok tbl =>
+    rw [hr] at h
+    simp only at h
+    cases ht : tbl[1]? with
+    | none => rw [ht] at h; simp at h
+    | some x =>
+      cases x with
+      | none => rw [ht] at h; simp at h
+      | some rf =>
+        rw [ht] at h
+        simp only [Bool.and_eq_true, decide_eq_true_eq] at h
+        exact ⟨tbl, rf, rfl, rfl, h.1, h.2⟩
+
+/-- … although, read as the property reads identifiers, `T.X` names nothing in `dotted`. -/
+theorem dotted_has_no_candidate : ∀ y, ¬ ConstCand dotted 1 [84, 46, 88] y := by
+  have hf1 : ∀ f, dotted[1]? = some f → f = dotted[1] := by
+    intro f h; simpa using h.symm
+  have noEnum0 : ∀ b e idx, ¬ EnumDen dotted 0 b e idx := by
+    intro b e idx h
+    cases h with
+    | enum h1 h2 =>
+      have : _ = dotted[0] := by simpa using h1.symm
+      subst this
+      cases h2 with
+      | enum h => simp [dotted] at h
+    | tdLoc h1 h2 _ _ _ _ =>
+      have : _ = dotted[0] := by simpa using h1.symm
+      subst this
+      simp [dotted] at h2
+    | tdQual h1 h2 _ _ _ _ _ =>
+      have : _ = dotted[0] := by simpa using h1.symm
+      subst this
+      simp [dotted] at h2
+  have noEnumT : ∀ e idx, ¬ EnumDen dotted 1 [84] e idx := by
+    intro e idx h
+    generalize hb : ([84] : Bytes) = b at h
+    cases h with
+    | @enum _ f _ h1 h2 =>
+      have := hf1 f h1
+      subst this
+      generalize hc : Cat.enum = c at h2
+      cases h2 with
+      | typedef h => cases hc
+      | constant h => cases hc
+      | enum h => simp [dotted] at h; rw [h] at hb; simp at hb
+      | @structLike s h => simp [dotted, File.structLikes] at h
+      | service h => cases hc
+    | @tdLoc _ f td n _ _ h1 h2 h3 _ h5 _ =>
+      have := hf1 f h1
+      subst this
+      simp only [dotted, List.getElem_cons_succ, List.getElem_cons_zero, List.mem_cons, List.not_mem_nil,
+        or_false] at h2
+      subst h2
+      simp only [TypeExpr.name.injEq] at h3
+      subst h3
+      simp [splitLastDot] at h5
+    | @tdQual _ f td n a b' k j' c _ _ h1 h2 h3 _ h5 h6 h7 =>
+      have := hf1 f h1
+      subst this
+      obtain ⟨inc, g, r1, r2, _⟩ := h6
+      have hk : k = 0 := by
+        have := (List.getElem?_eq_some_iff.mp r1).1
+        simp [dotted] at this
+        exact this
+      subst hk
+      simp only [dotted, List.getElem_cons_succ, List.getElem_cons_zero, List.getElem?_cons_zero,
+        Option.some.injEq] at r1
+      subst r1
+      simp only at r2
+      subst r2
+      exact noEnum0 _ _ _ h7
+  intro y hy
+  cases hy with
+  | localConst _ h2 _ => simp [splitLastDot] at h2
+  | enumValue h1 h2 _ =>
+    have : splitLastDot [84, 46, 88] = some ([84], [88]) := by decide
+    rw [this] at h1
+    simp only [Option.some.injEq, Prod.mk.injEq] at h1
+    obtain ⟨rfl, rfl⟩ := h1
+    exact noEnumT _ _ h2
+  | @incConst f a v k inc g h0 h1 h2 h3 _ _ =>
+    have : splitLastDot [84, 46, 88] = some ([84], [88]) := by decide
+    rw [this] at h1
+    simp only [Option.some.injEq, Prod.mk.injEq] at h1
+    obtain ⟨rfl, rfl⟩ := h1
+    have := hf1 f h0
+    subst this
+    have hk : k = 0 := by
+      have := (List.getElem?_eq_some_iff.mp h2).1
+      simp [dotted] at this
+      exact this
+    subst hk
+    simp only [dotted, List.getElem_cons_succ, List.getElem_cons_zero, List.getElem?_cons_zero,
+      Option.some.injEq] at h2
+    subst h2
+    revert h3
+    decide
+  | incEnumValue _ h1 h2 _ _ _ _ =>
+    have : splitLastDot [84, 46, 88] = some ([84], [88]) := by decide
+    rw [this] at h1
+    simp only [Option.some.injEq, Prod.mk.injEq] at h1
+    obtain ⟨rfl, rfl⟩ := h1
+    simp [splitLastDot] at h2
+
 end Props.C05
